@@ -46,6 +46,7 @@ package interp // import "golang.org/x/tools/go/ssa/interp"
 
 import (
 	"fmt"
+	"go/ast"
 	"go/token"
 	"go/types"
 	"log"
@@ -85,12 +86,13 @@ type interpreter struct {
 	run     *runState              // the current run
 	inited  map[*ssa.Package]bool  // packages whose init ran (or is running)
 
-	forcing    map[*ssa.Package]bool
-	unsafeData map[*value][]value
-	onceDone   map[*value]bool
-	syncMaps   map[*value]*smap
-	poolReuse  bool
-	pools      map[*value][]value
+	forcing       map[*ssa.Package]bool
+	unsafeData    map[*value][]value
+	onceDone      map[*value]bool
+	syncMaps      map[*value]*smap
+	gcReturnOrder map[*ssa.Function]bool
+	poolReuse     bool
+	pools         map[*value][]value
 
 	// thread mode: interpreted goroutines run on native goroutines; the
 	// harness scheduler (zzverif.RunThreads) guarantees only one is ever
@@ -107,6 +109,93 @@ type interpreter struct {
 	abortOnce sync.Once
 	abortVal  interface{}
 	threads   int
+}
+
+// selfResultStore: "return t, f(&t)" with t a named result. The spec leaves
+// the order of reading t and calling f open. go/ssa compiles the statement as
+// the parallel assignment t, err = t, f(&t): it loads t, calls f, stores the
+// OLD value back into t and returns it. The gc compiler elides the
+// self-assignment t = t, so the caller sees what f wrote (and
+// restlicodec.UnmarshalRestLi relies on that for typeref and custom keys).
+// The native build is the reference, so in functions whose syntax contains
+// such a return statement the engine skips a store of a named result into
+// itself.
+func (i *interpreter) selfResultStore(fr *frame, st *ssa.Store) bool {
+	al, ok := st.Addr.(*ssa.Alloc)
+	if !ok {
+		return false
+	}
+	ld, ok := st.Val.(*ssa.UnOp)
+	if !ok || ld.Op != token.MUL || ld.X != ssa.Value(al) {
+		return false
+	}
+	fn := fr.fn
+	is, cached := i.gcReturnOrder[fn]
+	if !cached {
+		is = hasSelfResultReturn(fn)
+		if i.gcReturnOrder == nil {
+			i.gcReturnOrder = map[*ssa.Function]bool{}
+		}
+		i.gcReturnOrder[fn] = is
+	}
+	if !is {
+		return false
+	}
+	results := fn.Signature.Results()
+	for k := 0; k < results.Len(); k++ {
+		if results.At(k).Name() != "" && results.At(k).Name() == al.Comment {
+			return true
+		}
+	}
+	return false
+}
+
+func hasSelfResultReturn(fn *ssa.Function) bool {
+	src := fn
+	if fn.Origin() != nil {
+		src = fn.Origin()
+	}
+	decl, ok := src.Syntax().(*ast.FuncDecl)
+	if !ok || decl.Type.Results == nil || decl.Body == nil {
+		return false
+	}
+	var names []string
+	for _, f := range decl.Type.Results.List {
+		for _, n := range f.Names {
+			names = append(names, n.Name)
+		}
+	}
+	if len(names) < 2 {
+		return false
+	}
+	found := false
+	ast.Inspect(decl.Body, func(n ast.Node) bool {
+		if _, isLit := n.(*ast.FuncLit); isLit {
+			return false
+		}
+		ret, ok := n.(*ast.ReturnStmt)
+		if !ok || len(ret.Results) != len(names) {
+			return true
+		}
+		self, call := false, false
+		for k, e := range ret.Results {
+			if id, ok := e.(*ast.Ident); ok && id.Name == names[k] {
+				self = true
+				continue
+			}
+			ast.Inspect(e, func(m ast.Node) bool {
+				if _, ok := m.(*ast.CallExpr); ok {
+					call = true
+				}
+				return true
+			})
+		}
+		if self && call {
+			found = true
+		}
+		return true
+	})
+	return found
 }
 
 // verifInterpreted names the zzverif functions whose bodies the engine runs
@@ -269,7 +358,8 @@ func visitInstr(fr *frame, instr ssa.Instruction) continuation {
 			fr.result = fr.get(instr.Results[0])
 		default:
 			var res []value
-			for _, r := range instr.Results {
+			for k, r := range instr.Results {
+				_ = k
 				res = append(res, fr.get(r))
 			}
 			fr.result = tuple(res)
@@ -290,6 +380,9 @@ func visitInstr(fr *frame, instr ssa.Instruction) continuation {
 		addr := fr.get(instr.Addr).(*value)
 		if addr == nil {
 			panic(runtimePanic{"runtime error: invalid memory address or nil pointer dereference"})
+		}
+		if fr.i.selfResultStore(fr, instr) {
+			break // see selfResultStore
 		}
 		if fr.i.race != nil {
 			fr.i.raceWrite(addr, instr)
